@@ -72,3 +72,15 @@ Example C18_pcgrad_example :
 Proof. cbn [pc_vec Nat.eqb nth]. rn.
   assert (E : Rltb (dotR [1; 0] [-1; 1]) 0 = true) by (apply Rltb_true; cbn; lra).
   rewrite E. cbn. f_equal; [|f_equal]; lra. Qed.
+
+(* ---- MGDA (added): Frank-Wolfe never increases the norm; never longer than the mean row ---- *)
+From TJ.proofs Require Import MgdaProofs.
+Theorem C18_mgda_step_decreases : forall n J alpha, wfmat n J -> simplex (length J) alpha ->
+  quadform RN (gramR J) (fst (mgda_step RN (gramR J) alpha)) <= quadform RN (gramR J) alpha.
+Proof. exact mgda_step_decreases. Qed.
+Print Assumptions C18_mgda_step_decreases.
+Theorem C18_mgda_not_longer_than_mean : forall n J eps iters, wfmat n J ->
+  dotR (agg_mgda RN eps iters J) (agg_mgda RN eps iters J) <=
+  dotR (agg_mean RN J) (agg_mean RN J).
+Proof. exact mgda_not_longer_than_mean. Qed.
+Print Assumptions C18_mgda_not_longer_than_mean.
